@@ -100,6 +100,45 @@ impl<R> Drop for NotifyOnDrop<R> {
     }
 }
 
+/// Body reader for chunked requests. Like `EqualReader` it reads and throws away what is left
+/// of the body when it is dropped, so that the next request is parsed from the first byte
+/// after this body even if the application did not read all of it.
+struct ChunkedBodyReader<R: Read> {
+    decoder: Decoder<R>,
+    finished: bool,
+}
+
+impl<R: Read> Read for ChunkedBodyReader<R> {
+    fn read(&mut self, buf: &mut [u8]) -> io::Result<usize> {
+        if self.finished {
+            return Ok(0);
+        }
+        match self.decoder.read(buf) {
+            Ok(0) if !buf.is_empty() => {
+                self.finished = true;
+                Ok(0)
+            }
+            Err(err) => {
+                self.finished = true;
+                Err(err)
+            }
+            other => other,
+        }
+    }
+}
+
+impl<R: Read> Drop for ChunkedBodyReader<R> {
+    fn drop(&mut self) {
+        let mut buf = [0u8; 4096];
+        while !self.finished {
+            match self.decoder.read(&mut buf) {
+                Ok(0) | Err(_) => self.finished = true,
+                Ok(_) => (),
+            }
+        }
+    }
+}
+
 /// Error that can happen when building a `Request` object.
 #[derive(Debug)]
 pub enum RequestCreationError {
@@ -218,7 +257,10 @@ where
     } else if transfer_encoding.is_some() {
         // if a transfer-encoding was specified, then "chunked" is ALWAYS applied
         // over the message (RFC2616 #3.6)
-        Box::new(FusedReader::new(Decoder::new(source_data))) as Box<dyn Read + Send + 'static>
+        Box::new(FusedReader::new(ChunkedBodyReader {
+            decoder: Decoder::new(source_data),
+            finished: false,
+        })) as Box<dyn Read + Send + 'static>
     } else {
         // if we have neither a Content-Length nor a Transfer-Encoding,
         // assuming that we have no data
